@@ -150,6 +150,19 @@ impl Ctx {
     // Evaluates a case, counts it, and records a violation if it fails.
     // Returns true when the case passed.
     pub fn judge(&self, case: &Case, nontrivial: bool, via: Via, custom: Option<CustomFn>) -> bool {
+        let trace = std::env::var("VERIF_TRACE").is_ok();
+        let t0 = Instant::now();
+        if trace {
+            eprintln!("TRACE start {} {}", case.kind, clip(&case.note, 120));
+        }
+        let r = self.judge_inner(case, nontrivial, via, custom);
+        if trace && t0.elapsed().as_millis() > 500 {
+            eprintln!("TRACE slow {} ms {} {}\n{}", t0.elapsed().as_millis(), case.kind, clip(&case.note, 120), clip(&String::from_utf8_lossy(&case.srcs[0]), 3000));
+        }
+        r
+    }
+
+    fn judge_inner(&self, case: &Case, nontrivial: bool, via: Via, custom: Option<CustomFn>) -> bool {
         self.count(case, nontrivial);
         match eval_case(case, via, custom) {
             Verdict::Pass => true,
